@@ -29,6 +29,14 @@ def gen(ctx, n):
             if any(n in ("RFVoltage", "steps", "SyncFreq") for n, _ in items):
                 c.tags.add("alias")
         cs.append(c)
+    # legacy names are file-only: on the command line they must be refused (status fail: nothing to round-trip); were one
+    # accepted there, the value would be lost on save (the skip list) - the round trip is judged if the case runs
+    inf = oc.info()
+    for k, o in enumerate(sorted((o for o in inf["table"].values() if o["kind"] == "KAlias"), key=lambda o: o["name"])):
+        c = oc.OptCase("rl%d" % k)
+        c.cli.append(dict(kind="L", name=o["name"], toks=[oc.LEGAL[o["ty"]][-2]], opt=None))
+        c.tags.add("legacy-name-on-cli")
+        cs.append(c)
     for c in cs:
         for t in c.tags:
             ctx.count(t)
@@ -94,7 +102,7 @@ def run(ctx, cases=None):
         for c in cs:
             r = res[c.cid]
             if not hasattr(c, "raw_argv"):
-                d = oc.compare(c, r)
+                d = oc.compare(c, r, by_getter=False)
                 if d:
                     dis.append(dict(case=c.replay(), detail=d[:4], sig=dict(kind="options", stage="correspondence")))
             oc.oracle_c13(ctx, c, r)
